@@ -38,7 +38,7 @@ Definition sel_crit (meth : method) (M0 : cmat T) : mtree -> mtree -> T -> Prop 
 
 Theorem generic_selection_greedy meth s d (m : list T) (n : N) s' d' m' M0 :
   meth = Single \/ meth = Complete ->
-  Forall (fun v => f_ltb F v (f_max F) = true) m ->
+  Forall (fun v => f_ltb F v (f_inf F) = true) m ->
   generic_with (kops_of F meth) p meth s d m n = Ok (s', d', m') ->
   prologue p m n = Ok M0 ->
   exists raw,
@@ -57,7 +57,7 @@ Proof.
   destruct (@generic_greedy T (kops_of F meth) p meth ltb_irrefl ltb_trans ltb_negtrans eqb_refl) with
     (crit := sel_crit meth M0) (s := s) (d := d) (m := m) (n := n) (s' := s') (d' := d') (m' := m') (M0 := M0)
     as (raw & Hg & Hlen & Hperm & _).
-  - intros va vb md sa sb sx Ha Hb _. destruct Hm as [-> | ->]; cbn [kops_of k_upd k_ltb k_max] in *; cbn.
+  - intros va vb md sa sb sx Ha Hb _. destruct Hm as [-> | ->]; cbn [kops_of k_upd k_ltb k_inf] in *; cbn.
     + destruct (f_ltb F va vb); assumption.
     + destruct (f_ltb F vb va); assumption.
   - intros _ va vb md sa sb sx _ _ _. destruct Hm as [-> | ->]; cbn [kops_of k_upd k_ltb]; cbn.
